@@ -253,9 +253,18 @@ Definition hash_table_check : bool :=
 
 (* ------------------------------------------------------------------ __match_args__ *)
 
+(* with the repaired loop (mx = true): full statement *)
+Theorem match_args_eq : forall o u fs,
+  no_field_kw fs -> cy_match_args true o u fs = py_match_args o u fs.
+Proof.
+  intros o u fs Hkw. unfold cy_match_args, py_match_args.
+  destruct (o_match_args o), (u_match_args u); cbn; try reflexivity.
+  rewrite (py_std_nokw o fs Hkw). now destruct (o_kw_only o).
+Qed.
+
 Theorem match_args_eq_partial : forall o u fs,
   no_field_kw fs -> (o_kw_only o = true \/ forall f, In f fs -> f_init f = true) ->
-  cy_match_args o u fs = py_match_args o u fs.
+  cy_match_args false o u fs = py_match_args o u fs.
 Proof.
   intros o u fs Hkw H. unfold cy_match_args, py_match_args.
   destruct (o_match_args o), (u_match_args u); cbn; try reflexivity.
@@ -265,7 +274,7 @@ Qed.
 
 (* full statement (false): forall o u fs, no_field_kw fs -> cy_match_args = py_match_args *)
 Theorem match_args_init_false_refuted : exists o u fs,
-  no_field_kw fs /\ cy_match_args o u fs = Some [1%N; 2%N] /\ py_match_args o u fs = Some [1%N].
+  no_field_kw fs /\ cy_match_args false o u fs = Some [1%N; 2%N] /\ py_match_args o u fs = Some [1%N].
 Proof.
   exists dflt_opts, no_user, [fld 1 DNone true None; fld 2 DValue false None].
   split; [|split; reflexivity].
@@ -340,21 +349,23 @@ Record domain_ok (o : opts) (u : user) (fs : list field) : Prop := {
   dom_body : init_false_has_default fs
 }.
 
-Theorem decisions_eq_partial : forall o u fs, domain_ok o u fs -> cy_decide true o u fs = py_decide o u fs.
+Theorem decisions_eq_partial : forall o u fs, domain_ok o u fs -> cy_decide true true o u fs = py_decide o u fs.
 Proof.
   intros o u fs [H1 H2 H3 H4 H5 H6 H7]. unfold cy_decide, py_decide.
   rewrite (rejected_eq_partial o u fs H1 H2 H3 H4 H5), (init_signature_eq o u fs H1 H2),
-    repr_fields_eq, (hash_eq_partial o u fs H3), (match_args_eq_partial o u fs H1 H6),
+    repr_fields_eq, (hash_eq_partial o u fs H3), (match_args_eq o u fs H1),
     (body_eq_partial fs H7).
   destruct (compare_fields_eq o u fs) as [-> ->]. reflexivity.
 Qed.
 
 (* the code as it is (hx = false) on the further complement of the hash-field finding *)
 Theorem decisions_eq_asis_partial : forall o u fs,
-  domain_ok o u fs -> hash_none_is_compared fs -> cy_decide false o u fs = py_decide o u fs.
+  domain_ok o u fs -> hash_none_is_compared fs -> cy_decide false false o u fs = py_decide o u fs.
 Proof.
   intros o u fs H Hh. rewrite <- (decisions_eq_partial o u fs H). unfold cy_decide. f_equal.
-  unfold cy_hash. now rewrite (hash_fields_eq_partial fs Hh), hash_fields_eq.
+  - unfold cy_hash. now rewrite (hash_fields_eq_partial fs Hh), hash_fields_eq.
+  - destruct H as [H1 _ _ _ _ H6 _].
+    now rewrite (match_args_eq_partial o u fs H1 H6), (match_args_eq o u fs H1).
 Qed.
 
 (* ------------------------------------------------------------------ ordering = tuple ordering *)
